@@ -20,6 +20,7 @@ CONSTANTS
   NeedHead = %(head)s
   HasOld = %(old)s
   Dest = "%(dest)s"
+  Single = %(single)s
   W = %(w)d
 %(invs)sINVARIANT C06_M_DestOnlyOldOrComplete
 INVARIANT C06_M_NoTempAtDoneEvent
@@ -66,7 +67,12 @@ def run(ck, pid, tier, seed):
              dict(n=2, r=2, rq=2, ioq=1, a=2, faults=1, cancel=T, head=F, old=F, live=False,
                   dest='nonseekable', w=1),
              dict(n=2, r=2, rq=1, ioq=2, a=2, faults=1, cancel=F, head=F, old=F, live=False,
-                  dest='seekable')]
+                  dest='seekable'),
+             dict(n=1, r=1, rq=1, ioq=1, a=2, faults=1, cancel=T, head=F, old=T, live=True, single=T),
+             dict(n=1, r=2, rq=1, ioq=1, a=2, faults=1, cancel=T, head=T, old=F, live=True,
+                  dest='nonseekable', w=1, single=T),
+             dict(n=1, r=1, rq=1, ioq=1, a=2, faults=2, cancel=F, head=F, old=F, live=True,
+                  dest='seekable', single=T)]
     if tier == 'thorough':
         confs += [dict(n=2, r=2, rq=2, ioq=1, a=2, faults=1, cancel=T, head=T, old=T, live=False),
                   dict(n=2, r=1, rq=1, ioq=2, a=2, faults=2, cancel=T, head=F, old=T, live=False),
@@ -89,6 +95,7 @@ def run(ck, pid, tier, seed):
     for c in confs:
         c.setdefault('dest', 'path')
         c.setdefault('w', 2)
+        c.setdefault('single', 'FALSE')
         kw = {}
         if c.get('sim'):
             kw = dict(simulate=c['sim'], depth=200, seed=seed + 7)
@@ -98,6 +105,7 @@ def run(ck, pid, tier, seed):
             files={'MC_Download.tla': mod}, **kw)
         ck.add_tlc(f'Download N={c["n"]} R={c["r"]} RQ={c["rq"]} IOQ={c["ioq"]} A={c["a"]} '
                    f'faults={c["faults"]} cancel={c["cancel"]} head={c["head"]} dest={c["dest"]} W={c["w"]} '
+                   f'single={c["single"]} '
                    f'{"safety+liveness" if c["live"] else "safety"}'
                    + (' simulation ' + c['sim'] if c.get('sim') else ''), r,
                    exhaustive=not c.get('sim'))
